@@ -145,3 +145,52 @@ def verify_rules(F):
                 yield name, "small_order_args", f, ("ok" if okso else "viol"), ("is_small_order is applied to the decoded R and to A" if okso else "is_small_order is not applied to both the decoded R and A")
             else:
                 yield name, "small_order_args", f, "unknown", "small-order test arguments outside the domain"
+
+
+
+def clamp_rules(F):
+    """yield (instance, fn, status, msg): the clamped multiplications multiply by the *integer* clamp(bytes) - not by a reduced scalar"""
+    kb = bytes_of(("k",), 0, 32)
+    want = ssym(("int", ("clamp", ("k",), 0), 0))
+    P = psym(("P",))
+    cases = [("EdwardsPoint::mul_clamped", r"edwards::EdwardsPoint::mul_clamped$", [P, kb], "edw", P),
+             ("EdwardsPoint::mul_base_clamped", r"edwards::EdwardsPoint::mul_base_clamped$", [kb], "edw", psym(("B",))),
+             ("MontgomeryPoint::mul_clamped", r"montgomery::MontgomeryPoint::mul_clamped$", [("mp", "self"), kb], "mont", ("mp", "self")),
+             ("MontgomeryPoint::mul_base_clamped", r"montgomery::MontgomeryPoint::mul_base_clamped$", [kb], "mont", ("basepoint",)),
+             ("BasepointTable::mul_base_clamped", r"traits::BasepointTable::mul_base_clamped$", [("tbl",), kb], "edw", psym(("B",)))]
+    for name, rx, args, kind, base in cases:
+        f = one_fn(F, rx)
+        if f is None:
+            yield name, None, "missing", "function not found"
+            continue
+        try:
+            ip = BQ.BqInterp(F, BQ.BqModels(), step_budget=2_000_000)
+            ip.exact_small_vecs = True
+            tyenv = {"Self": "curve25519_dalek::edwards::EdwardsBasepointTable"} if name.startswith("BasepointTable") else None
+            ret, root = ip.run_root(f, args, tyenv=tyenv)
+        except Exception as e:
+            yield name, f, "unknown", "analysis failed: %r" % (e,)
+            continue
+        if kind == "edw":
+            if ret is None or ret[0] != "pl":
+                yield name, f, "unknown", "the result left the domain"
+                continue
+            exp = pscale(base, want)
+            if ret == exp:
+                yield name, f, "ok", "= clamp(bytes) * %s with clamp(bytes) the unreduced integer" % ("P" if base == P else "B")
+            else:
+                yield name, f, "viol", "returns %s, expected the point multiplied by the unreduced integer clamp(bytes)" % show_pl(ret)
+        else:
+            mm = ip.models.mont_muls
+            if ret is None or ret[0] != "mpt" and not mm:
+                yield name, f, "unknown", "the result left the domain"
+                continue
+            got = ret if ret[0] == "mpt" else None
+            if got is None:
+                yield name, f, "unknown", "the result is not a Montgomery multiplication in the domain"
+            elif got[0] == "mpt" and got[1] == base and got[2] == want:
+                yield name, f, "ok", "= clamp(bytes) * %s (ladder) with clamp(bytes) the unreduced integer" % ("self" if base != ("basepoint",) else "the basepoint")
+            elif got[1] and got[1][0] == "to_montgomery" and got[1][1] == pscale(psym(("B",)), want):
+                yield name, f, "ok", "= to_montgomery(clamp(bytes) * B) with clamp(bytes) the unreduced integer"
+            else:
+                yield name, f, "viol", "multiplies by %s, expected the unreduced integer clamp(bytes)" % (BQ.show_sp(got[2]) if got[2] is not None else "a value outside the domain")
